@@ -70,14 +70,14 @@ std::vector<TecmpPayloadPtr> TECMP::Decoder::HandlePayload(const uint8_t* data, 
         case CmpHeader::MessageType::cmStatus:
         {
             auto payload = GetCaptureModulePayload(data, size);
-            if (payload->getMessageType() == CmpHeader::MessageType::cmStatus)
+            if (payload && payload->getMessageType() == CmpHeader::MessageType::cmStatus)
                 payloads.push_back(payload);
             break;
         }
         case CmpHeader::MessageType::data:
         {
             auto payload = GetDataPayload(data, size, header);
-            if (payload->getMessageType() == CmpHeader::MessageType::data)
+            if (payload && payload->getMessageType() == CmpHeader::MessageType::data)
                 payloads.push_back(payload);
             break;
         }
@@ -102,14 +102,14 @@ TecmpPayloadPtr TECMP::Decoder::GetDataPayload(const uint8_t* payloadData, const
         case CmpHeader::DataType::canFd:
         {
             auto payload = GetCanPayload(payloadData, size);
-            if (payload->getMessageType() == CmpHeader::MessageType::data && payload->getType() == PayloadType::can)
+            if (payload && payload->getMessageType() == CmpHeader::MessageType::data && payload->getType() == PayloadType::can)
                 return payload;
             break;
         }
         case CmpHeader::DataType::lin:
         {
             auto payload = GetLinPayload(payloadData, size);
-            if (payload->getMessageType() == CmpHeader::MessageType::data && payload->getType() == PayloadType::lin)
+            if (payload && payload->getMessageType() == CmpHeader::MessageType::data && payload->getType() == PayloadType::lin)
                 return payload;
             break;
         }
